@@ -51,7 +51,7 @@ class Profile:
     """what a unit tells the lowering: type map, class-typed models, call rules, ghost hooks"""
 
     def __init__(self, types=None, class_types=None, calls=None, enums_as_int=True, hooks=None, field_rules=None,
-                 globals_ok=None, default_args=None, literal_ids=None, this_fields=None, pure_fns=None):
+                 globals_ok=None, default_args=None, literal_ids=None, this_fields=None, pure_fns=None, string_types=None):
         self.types = dict(types or {})            # stripped C++ type -> C type
         self.class_types = set(class_types or ())  # C type names passed by address
         self.calls = dict(calls or {})
@@ -60,6 +60,7 @@ class Profile:
         self.globals_ok = set(globals_ok or ())   # non-local variables the unit defines itself
         self.default_args = dict(default_args or {})  # stripped type -> C expression for CXXDefaultArgExpr
         self.literal_ids = literal_ids            # StringTable or None
+        self.string_types = set(string_types or ())  # C scalar types that model strings as opaque ids (DESIGN 5.3)
         # free / static functions known to be side-effect free (needed only to justify dropping a logging call)
         self.pure_fns = set(pure_fns or ()) | {'number', 'fromUtf8', 'fromLatin1', 'operator""_s', 'toString', 'arg', 'qMax', 'qMin', 'size', 'isEmpty', 'toHex', 'toUtf8', 'toLatin1', 'count', 'length', 'isNull', 'data', 'constData', 'tagName', 'attribute', 'namespaceURI', 'errorString', 'toBase64', 'join', 'left', 'mid', 'id', 'type', 'from', 'to'}
 
@@ -77,8 +78,11 @@ class StringTable:
             self.ids[s] = len(self.ids) + 1
         return self.ids[s]
 
-    def cname(self, s):
-        return 'STR_%d' % self.get(s)
+    def cexpr(self, s):
+        return '%d /*%s*/' % (self.get(s), re.sub(r'[^ -~]', '?', s).replace('*/', '* /').replace('/*', '/ *'))
+
+    def table(self):
+        return '/* string table (opaque ids; 0 = empty string):\n' + ''.join('   %d = "%s"\n' % (i, re.sub(r'[^ -~]', '?', k).replace('*/', '* /')) for k, i in self.ids.items()) + '*/\n#define STR_FIRST_FREE %d\n' % (len(self.ids) + 1)
 
 
 class Lowerer:
@@ -175,7 +179,7 @@ class Lowerer:
             return False
         if k in ('CXXMemberCallExpr',):
             me = self.skip(n['inner'][0])
-            if me.get('name') not in self.p.pure_fns:
+            if me.get('name') not in self.p.pure_fns and not re.match(r'operator [A-Za-z_]', me.get('name', '')):
                 return False
         if k == 'CXXOperatorCallExpr':
             rd = self.callee_ref(n)
@@ -310,8 +314,33 @@ class Lowerer:
             return rule(self, n)
         raise Unsupported('rule for %s must be callable' % key)
 
+    def udl_from_source(self, n):
+        """QXmpp's u"..."_s is a literal operator template: clang's JSON carries the characters only in the (undumped)
+        template argument, so the token is read back from the source file at the node's own offset and must parse as
+        a u"..."_s token there (otherwise: Unsupported)."""
+        b = n.get('range', {}).get('begin', {})
+        for k in ('spellingLoc', 'expansionLoc'):
+            if k in b:
+                b = b[k]
+                break
+        off, ln = b.get('offset'), b.get('tokLen')
+        if off is None or ln is None:
+            return None
+        for path in getattr(self, 'source_files', []):
+            try:
+                data = open(path, 'rb').read()
+            except OSError:
+                continue
+            tok = data[off:off + ln].decode('utf-8', 'replace')
+            m = re.fullmatch(r'u"((?:[^"\\]|\\.)*)"_s', tok)
+            if m:
+                return m.group(1).encode().decode('unicode_escape') if '\\' in m.group(1) else m.group(1)
+        return None
+
     def string_literal(self, n):
         s = find_string(n)
+        if s is None and self.skip(n).get('kind') == 'UserDefinedLiteral':
+            s = self.udl_from_source(self.skip(n))
         if s is None:
             raise Unsupported('string literal without value')
         if self.p.literal_ids is None:
@@ -326,7 +355,7 @@ class Lowerer:
             tmp = self.newtmp()
             self.pre.append('%s %s = {%d};' % (t, tmp, self.p.literal_ids.get(s)))
             return tmp
-        return '%d /*%s*/' % (self.p.literal_ids.get(s), s.replace('*/', '* /'))
+        return self.p.literal_ids.cexpr(s)
 
     def lambda_expr(self, n):
         return self.custom('expr:LambdaExpr', n)
@@ -493,7 +522,13 @@ class Lowerer:
             return args[0]
         if kind == 'deref':
             return '(*%s)' % args[0]
-        if kind == 'fn' or kind == 'callee':
+        if kind == 'arg':
+            a = args[rule[1]]
+            an = self.skip(argnodes[rule[1]]) if rule[1] < len(argnodes) else None
+            if an is not None and self.is_class(an):
+                return strip_amp(a)      # class-typed: args carry addresses, the expression value is the object
+            return a
+        if kind == 'fn' or kind == 'callee' or kind == 'fnmut':
             if kind == 'callee':
                 self.repo_callees.add(rule[1])
             return '%s(%s)' % (rule[1], ', '.join(args))
@@ -505,7 +540,7 @@ class Lowerer:
             self.pre.append('%s %s; %s(&%s%s);' % (ct, t, rule[1], t, ''.join(', ' + a for a in args)))
             return t
         if kind == 'expr':
-            return '(' + rule[1].format(*[strip_amp(a) if rule[1].count('{v') else a for a in args], **{'v%d' % i: strip_amp(a) for i, a in enumerate(args)}) + ')'
+            return '(' + rule[1].format(*args, **{'v%d' % i: strip_amp(a) for i, a in enumerate(args)}) + ')'
         if kind == 'field':
             return '%s->%s' % (args[0], rule[1])
         if kind == 'const':
@@ -527,12 +562,24 @@ class Lowerer:
         nargs = len([a for a in argn if a.get('kind') != 'CXXDefaultArgExpr'])
         cls = self.class_key(base, me.get('isArrow'))
         key = '%s::%s/%d' % (cls, me['name'], nargs)
+        if key not in self.p.calls and ('*::%s/%d' % (me['name'], nargs)) in self.p.calls:
+            key = '*::%s/%d' % (me['name'], nargs)
         rule = self.p.calls.get(key)
         if rule is None:
-            raise Unsupported('call ' + key)
-        if rule[0] == 'drop' if not callable(rule) else False:
+            raise Unsupported('call %s::%s/%d' % (cls, me['name'], nargs))
+        if not callable(rule) and rule[0] == 'drop':
             return self.emitcall(rule, key, [], n, [me['inner'][0]] + argn)
-        obj = self.expr(base) if me.get('isArrow') else self.addr(base)
+        if not callable(rule) and rule[0] == 'const':
+            for a in [me['inner'][0]] + argn:
+                if not self.pure(a):
+                    raise Unsupported('call %s mapped to a constant has an operand with side effects' % key)
+            return self.emitcall(rule, key, [], n, argn)
+        if me.get('isArrow'):
+            obj = self.expr(base)
+        elif self.is_class(base) or (not callable(rule) and rule[0] in ('fnmut',)):
+            obj = self.addr(base)
+        else:
+            obj = self.expr(base)
         refs = self.param_refs(me.get('type', {}).get('qualType', ''))
         args = [obj]
         for i, a in enumerate(argn):
@@ -554,6 +601,10 @@ class Lowerer:
             keys.append('op%s:%s:%s' % (sym, t0, self.tkey(self.skip(operands[1]))))
         keys.append('op%s:%s' % (sym, t0))
         key = next((k for k in keys if k in self.p.calls), None)
+        if key is None and sym == '=' and len(operands) == 2 and not self.is_class(a0) and self.tkey(self.skip(operands[1])) == t0:
+            # copy/move assignment of a class modelled as a C scalar
+            self.fire('op=:scalar-model:' + t0)
+            return '(%s = %s)' % (self.expr(a0), self.expr(operands[1]))
         if key is None:
             raise Unsupported('call ' + keys[0])
         rule = self.p.calls[key]
@@ -588,6 +639,11 @@ class Lowerer:
         rule = self.p.calls[key]
         if not callable(rule) and rule[0] == 'drop':
             return self.emitcall(rule, key, [], n, argn)
+        if not callable(rule) and rule[0] == 'const':
+            for a in argn:
+                if not self.pure(a):
+                    raise Unsupported('call %s mapped to a constant has an operand with side effects' % key)
+            return self.emitcall(rule, key, [], n, argn)
         refs = self.param_refs(rd.get('type', {}).get('qualType', ''))
         args = []
         for i, a in enumerate(argn):
@@ -605,6 +661,9 @@ class Lowerer:
         return t, argn, 'ctor:%s(%s)' % (t, ','.join(sigs))
 
     def construct(self, n, target):
+        t = self.ntype(n)
+        if t not in self.p.class_types:
+            return self.construct_value(n, t, target)
         t, argn, key = self.ctor_key(n)
         # copy / move construction of a modelled class from an lvalue or temporary of the same type
         if len(argn) == 1 and self.tkey(self.skip(argn[0])) == t and key not in self.p.calls:
@@ -633,6 +692,40 @@ class Lowerer:
             return dst
         self.pre.append('%s(&%s%s);' % (rule[1], dst, ''.join(', ' + a for a in args)))
         return dst
+
+    def construct_value(self, n, t, target):
+        """construction of a C++ class that is modelled as a C scalar (opaque string id, DOM node id, ...)"""
+        argn = [a for a in n.get('inner', []) if a.get('kind') != 'CXXDefaultArgExpr']
+        if t in self.p.string_types and argn and self.skip(argn[0]).get('kind') in ('StringLiteral', 'UserDefinedLiteral'):
+            e = self.string_literal(argn[0])
+        elif len(argn) == 1 and self.tkey(self.skip(argn[0])) == t:
+            e = self.expr(argn[0])
+        else:
+            sigs = [self.tkey(self.skip(a)) for a in argn]
+            key = 'ctor:%s(%s)' % (t, ','.join(sigs))
+            rule = self.p.calls.get(key)
+            if rule is None:
+                if not argn:
+                    self.fire('ctor:%s()=0' % t)
+                    e = '((%s)0)' % t
+                else:
+                    raise Unsupported(key)
+            else:
+                self.fire(key)
+                if callable(rule):
+                    e = rule(self, n, [self.arg(a) for a in argn])
+                elif rule[0] == 'expr':
+                    e = '(' + rule[1].format(*[self.arg(a) for a in argn]) + ')'
+                elif rule[0] == 'fn':
+                    e = '%s(%s)' % (rule[1], ', '.join(self.arg(a) for a in argn))
+                elif rule[0] == 'const':
+                    e = rule[1]
+                else:
+                    raise Unsupported('rule kind %s for %s' % (rule[0], key))
+        if target:
+            self.pre.append('%s = %s;' % (target, e))
+            return target
+        return e
 
     def _copy(self, t, src, target):
         self.fire('copy:' + t)
@@ -772,6 +865,12 @@ class Lowerer:
                 self.emit('%s%s %s;' % (sp, ct, cn))
             return
         i0 = self.skip(init[0])
+        if ct not in self.p.class_types and i0.get('kind') in ('CXXConstructExpr', 'CXXTemporaryObjectExpr'):
+            e = self.construct_value(i0, ct, None)
+            self.flush(sp)
+            cn, ct = self.declare_local(v, sp)
+            self.emit('%s%s %s = %s;' % (sp, ct, cn, e))
+            return
         if ct in self.p.class_types:
             # the local is declared first, then constructed in place
             tmpname = '__pending__'
@@ -982,11 +1081,23 @@ class Lowerer:
         for c in d['inner']:
             if c['kind'] == 'ParmVarDecl':
                 t = qt(c)
+                if not c.get('name'):
+                    try:
+                        self.ntype(c)
+                    except Unsupported:
+                        # unnamed (hence unused) parameter of a type the unit does not model
+                        params.append('const void *_unused%d' % len(params))
+                        self.fire('param:unused-unmodelled')
+                        continue
                 ct = self.ntype(c)
                 name = c.get('name') or ('_unnamed%d' % len(params))
                 c = dict(c, name=name)
                 is_const = re.match(r'\s*const\b', t) is not None
-                if t.strip().endswith('&') or (ct in self.p.class_types):
+                if ct not in self.p.class_types and t.strip().endswith('&') and is_const and not ct.endswith('*'):
+                    # const reference to a class modelled as a C scalar (opaque id): pass by value
+                    cn, _ = self.declare_local(c, '')
+                    params.append('%s %s' % (ct, cn))
+                elif t.strip().endswith('&') or (ct in self.p.class_types):
                     # references and by-value class parameters are passed by address
                     byval = not t.strip().endswith('&')
                     cn, _ = self.declare_local(c, '', is_ref=True, ctype=ct)
@@ -1031,7 +1142,7 @@ def balanced(s):
 
 
 def strip_amp(a):
-    return a[1:] if a.startswith('&') else '(*%s)' % a
+    return a[1:] if a.startswith('&') and not a.startswith('&&') else '(*%s)' % a
 
 
 def split_top(s):
